@@ -324,15 +324,15 @@ def tr_frozenlist(path: Path):
     return overrides
 
 
-def translate(int_src, mutators, list_callables):
-    """int_src(rel) -> Path; mutators: [(name, witness-args-text)], list_callables: [name]"""
-    o = {}
-    o.update(tr_object(int_src("tracing/object.py")))
-    o.update(tr_unpacking(int_src("tracing/unpacking.py")))
-    o.update(tr_function(int_src("tracing/function.py")))
-    ov = tr_frozenlist(int_src("tracing/frozenlist.py"))
-    L = ["(* GENERATED by props/C22/tr_tracing.py from /repo's tracing package -- do not edit *)",
-         "From Coq Require Import Bool List String.", "Import ListNotations. Open Scope string_scope.", "",
+SPEC = {"init_registers": "((negb d) && (negb u))", "use_raises": "(u && (negb c))", "use_pops": "(negb d)",
+        "upd_registers": "((negb d) && u)", "leak_raises": "ne", "input_frozen": "(negb b)",
+        "unpack_child_frozen": "f", "unpack_struct_frozen": "f", "unpack_list_frozen": "f",
+        "setattr_outcome": "(if is_field then (if frozen then SRaiseFrozen else SStored) else SRaiseAttr)"}
+
+
+def render(o, ov, mutators, list_callables, header="GENERATED by props/C22/tr_tracing.py from /repo's tracing package"):
+    L = [f"(* {header} -- do not edit *)",
+         "From Coq Require Import Bool List String.", "Import ListNotations. Local Open Scope string_scope.", "",
          "Inductive sres := SRaiseFrozen | SRaiseAttr | SStored | SNothing.",
          "Inductive body := BRaise | BCopy | BSelf | BInitGuard.", ""]
     for nm in ("init_registers", "use_raises", "use_pops", "upd_registers"):
@@ -349,4 +349,14 @@ def translate(int_src, mutators, list_callables):
     L.append("Definition list_mutators : list string := [" + "; ".join(f'"{m}"' for m, _ in mutators) + "].")
     L.append("(* all callable attributes of `list` that were probed *)")
     L.append("Definition list_callables : list string := [" + "; ".join(f'"{m}"' for m in list_callables) + "].")
-    return "\n".join(L) + "\n", o, ov
+    return "\n".join(L) + "\n"
+
+
+def translate(int_src, mutators, list_callables):
+    """int_src(rel) -> Path; mutators: [(name, witness-args-text)], list_callables: [name]"""
+    o = {}
+    o.update(tr_object(int_src("tracing/object.py")))
+    o.update(tr_unpacking(int_src("tracing/unpacking.py")))
+    o.update(tr_function(int_src("tracing/function.py")))
+    ov = tr_frozenlist(int_src("tracing/frozenlist.py"))
+    return render(o, ov, mutators, list_callables), o, ov
